@@ -7,12 +7,17 @@ cd "$WT" || exit 9
 git checkout -q -- . 2>/dev/null
 git apply --check "$M/patch.diff" || { echo "CONFIRM $M: patch does not apply"; exit 1; }
 git apply "$M/patch.diff"
-timeout 1500 cargo test --workspace --no-fail-fast --offline > "$M/confirm-tests.log" 2>&1
+# some tests use fixed /tmp file names and collide with other copies of the suite running on this
+# machine: the suite runs in a private mount namespace with its own /tmp (the worktree, which
+# lives under /tmp, is bound back in)
+run_suite() {
+  unshare -m bash -c "mkdir -p /mnt/wtbind && mount --bind '$WT' /mnt/wtbind && mount -t tmpfs tmpfs /tmp && mkdir -p '$WT' && mount --bind /mnt/wtbind '$WT' && cd '$WT' && timeout 1500 cargo test --workspace --no-fail-fast --offline" > "$M/confirm-tests.log" 2>&1
+}
+run_suite
 T=$?
 if [ "$T" != 0 ]; then
-  # some tests use fixed /tmp file names and collide with other copies of the suite: one re-run
-  sleep 20
-  timeout 1500 cargo test --workspace --no-fail-fast --offline > "$M/confirm-tests.log" 2>&1
+  sleep 5
+  run_suite
   T=$?
 fi
 P=$(grep -E "^test result" "$M/confirm-tests.log" | awk '{s+=$4; f+=$6} END {print s" passed "f" failed"}')
